@@ -290,8 +290,9 @@ PROPS["C17"] = dict(
 )
 
 PROPS["C11"] = dict(
-    modules=["Hpbf.Props.C11", "Hpbf.Props.C11Alloc", "Hpbf.Props.C11Full", "Hpbf.Props.Chain"],
-    theorems=t("Hpbf.C02", "translateE_check translateE_localOk translateE_localFacts local_localOk_of_facts") +
+    modules=["Hpbf.Props.C11", "Hpbf.Props.C11Alloc", "Hpbf.Props.C11Full", "Hpbf.Props.Chain", "Hpbf.Props.C02AllocTotal"],
+    theorems=t("Hpbf.C02", "allocateTemps_total_of_pre totalPre_of_emit allocateTemps_total_of_emit translateE_total translateE_total_check") + t("Hpbf.C02.Alloc", "drainEnds_total liveMask_total alloc_step_total tinv_step alloc_total_defd_necessary alloc_total_defAt_necessary alloc_total_unread_necessary alloc_total_lastLt_necessary alloc_total_any_numRegs") +
+             t("Hpbf.C02", "translateE_check translateE_localOk translateE_localFacts local_localOk_of_facts") +
              t("Hpbf.C02.Local", "analyze_covers emit_allGood allGood_dseLike allGood_allocateTemps allGood_parameterReordering "
                "allGood_zeroingMoveDetection allGood_strip targetsOk_strip latePasses_good") +
              t("Hpbf.C02", "allocateTemps_initOk allocateTemps_liveOk allocateTemps_initOk_of_emit allocateTemps_liveOk_of_emit "
@@ -328,7 +329,7 @@ PROPS["C11"] = dict(
           "hands to the interpreter (2 registers, fusion) and to the JIT (11 registers, no fusion).",
     not_proved="nothing of the property's statement on the model; what remains outside the proof is the tie: that the Rust "
                "generator equals the Lean port (exact bytecode equality on every sampled program, C02 bcgen/irgen streams), "
-               "and success of translate itself (emission proved total; allocate_temps totality in progress). The verified "
+               "(success of translate is a theorem: translateE_total). The verified "
                "checker still runs on the real bytecode of every sampled program as an independent cross-check",
     rule="for generated programs x 4 widths x levels 0-3 x {(2 regs, fuse), (11 regs, no fuse)}: the bytecode produced "
          "by bc::CodeGen::translate is sent to the Lean driver, which runs BcWf.check (reply ok / local / init / live); "
@@ -579,8 +580,10 @@ PROPS["C10"] = dict(
 )
 
 PROPS["C13"] = dict(
-    modules=["Hpbf.Props.C11", "Hpbf.Props.C12", "Hpbf.Props.C02EmitTotal", "Hpbf.Props.Chain", "Hpbf.Props.C01Dse"],
-    theorems=t("Hpbf.C02", "emit_total emitOnly_total emit_total_full_holds emit_total_run emit_total_inv") +
+    modules=["Hpbf.Props.C11", "Hpbf.Props.C12", "Hpbf.Props.C02EmitTotal", "Hpbf.Props.Chain", "Hpbf.Props.C01Dse", "Hpbf.Props.C03Total", "Hpbf.Props.C02AllocTotal"],
+    theorems=t("Hpbf.C02", "allocateTemps_total_of_pre totalPre_of_emit allocateTemps_total_of_emit translateE_total translateE_total_check") + t("Hpbf.C02.Alloc", "drainEnds_total liveMask_total alloc_step_total tinv_step alloc_total_defd_necessary alloc_total_defAt_necessary alloc_total_unread_necessary alloc_total_lastLt_necessary alloc_total_any_numRegs") +
+             t("Hpbf.C03", "total_selector_iff selector_total selector_total_converse translate_jitForm compile_total_modulo_fits translate_compile translate_compile_of_localOk") +
+             t("Hpbf.C02", "emit_total emitOnly_total emit_total_full_holds emit_total_run emit_total_inv") +
              t("Hpbf.Chain", "translateE_phases translateE_ok_of_alloc") + t("Hpbf.C01Dse", "eliminate_total eliminate_none_iff") +
              t("Hpbf.C11", "check_no_bad check_run_not_bad check_temps_lt") + t("Hpbf.C12", "parse_invariant parseStep_unreachable_arm parse_unreachable_arm parse_ok_iff_balanced"),
     streams=[dict(suite="c13", quick=150, thorough=8000, judge="const"),
@@ -590,15 +593,22 @@ PROPS["C13"] = dict(
     scope="Proved: the parser model is total and its two defensive arms are unreachable (C12); the EMISSION phase of "
           "translate never reaches one of its panic sites, for every IR block, width and fuse mode (emit_total: range "
           "table indices, the outer_accessed loop's fuel, sub-analysis indices — each site discharged), and once emission "
-          "succeeds the dead-store and late passes succeed, so only allocate_temps can still fail (translateE_ok_of_alloc); "
+          "succeeds the dead-store and late passes succeed (translateE_ok_of_alloc), and allocate_temps never panics on "
+          "emitted code for ANY register count (allocateTemps_total_of_emit; five extra invariants of emitted code, each "
+          "shown necessary by a panicking witness): translate is TOTAL (translateE_total) and its result always passes "
+          "the contract check (translateE_total_check); "
           "the optimizer's dead store elimination fails exactly on an analysis of the wrong shape (eliminate_none_iff); "
+          "the JIT's instruction selector has an arm for EVERY instruction translate produces in the JIT's setting "
+          "(11 registers, no fusion) and its only other panic site (a live bit >= 11 at a runtime call) is unreachable, so "
+          "machine-code generation succeeds whenever operands fit the encodable ranges (total_selector_iff exact, "
+          "translate_jitForm, translate_compile); "
           "every bytecode program "
           "accepted by the contract checker only contains operand forms the threaded interpreter implements (no "
           "unimplemented! at run time, C11 check_no_bad). Tied exactly: bytecode generation and JIT code generation are "
           "pure Lean functions of (IR, registers, fusion) resp. (bytecode, mode) whose output equals the Rust's on every "
           "sampled input — including the forms for which the Rust panics with unimplemented!, which the model predicts.",
-    not_proved="absence of panics in the optimizer's rebuild round, in allocate_temps (a hand-built state satisfying its "
-               "precondition panics; none reachable from emission was found) and in the JIT, independence of hash seeds and of earlier compilations, and reusability are properties of "
+    not_proved="absence of panics in the optimizer's rebuild round and in the JIT beyond instruction selection (operand "
+               "range overflows), independence of hash seeds and of earlier compilations, and reusability are properties of "
                "the running Rust code: they are observed (catch_unwind in a debug build, double compilation, two processes, "
                "triple execution), not proved; 'no super-polynomial blow-up' is measured on doubling families (thorough tier)",
     rule="c13 stream: generated programs incl. nesting depth 50-400 and divergent ones x 4 widths x levels 0-3: create every "
@@ -610,8 +620,9 @@ PROPS["C13"] = dict(
 )
 
 PROPS["C02"] = dict(
-    modules=["Hpbf.Props.C02", "Hpbf.Props.C02Emit", "Hpbf.Props.C02Dse", "Hpbf.Props.C02Alloc", "Hpbf.Props.C02EmitTotal", "Hpbf.Props.C11", "Hpbf.Props.C07", "Hpbf.Props.Chain"],
-    theorems=t("Hpbf.C02", "emit_total emitOnly_total emit_forward' emit_backward' emit_prefix'") +
+    modules=["Hpbf.Props.C02", "Hpbf.Props.C02Emit", "Hpbf.Props.C02Dse", "Hpbf.Props.C02Alloc", "Hpbf.Props.C02EmitTotal", "Hpbf.Props.C11", "Hpbf.Props.C07", "Hpbf.Props.Chain", "Hpbf.Props.C02AllocTotal"],
+    theorems=t("Hpbf.C02", "allocateTemps_total_of_pre totalPre_of_emit allocateTemps_total_of_emit translateE_total translateE_total_check") + t("Hpbf.C02.Alloc", "drainEnds_total liveMask_total alloc_step_total tinv_step alloc_total_defd_necessary alloc_total_defAt_necessary alloc_total_unread_necessary alloc_total_lastLt_necessary alloc_total_any_numRegs") +
+             t("Hpbf.C02", "emit_total emitOnly_total emit_forward' emit_backward' emit_prefix'") +
              t("Hpbf.Chain", "emit_targetsOk emit_brnz_target emit_brz_target emit_live0 translateE_phases translateE_ok_of_alloc passes_behEqIO translate_behEqIO translate_shape translate_forward translate_backward translate_prefix translate_refines translate_refines_noOnce translate_never_interrupted translate_not_bad_of_terminates parse_noOnce parse_onceOk bytecode_level0_forward bytecode_level0_backward bytecode_level0_prefix bytecode_level0 bytecode_level0_debug bytecode_level0_proper") +
              t("Hpbf.C02", "allocateTemps_preserves allocateTemps_latePre") +
              t("Hpbf.C02.Alloc", "sim_step trace_of_allocateTemps trace_inv repl_stable allocPreB_sound alloc_flow_necessary "
@@ -680,8 +691,9 @@ PROPS["C02"] = dict(
 
 
 PROPS["C03"] = dict(
-    modules=["Hpbf.Props.C03", "Hpbf.Props.C03Flow", "Hpbf.Props.C11", "Hpbf.Props.Chain"],
-    theorems=t("Hpbf.Chain", "x86_ret_unique jit_of_bc jit_level0_forward jit_level0_unique jit_level0_prefix jit_level0_divergent jit_level0_limited jit_level0_limited_enough") +
+    modules=["Hpbf.Props.C03", "Hpbf.Props.C03Flow", "Hpbf.Props.C03Total", "Hpbf.Props.C11", "Hpbf.Props.C11Full", "Hpbf.Props.Chain"],
+    theorems=t("Hpbf.C03", "total_emitCopy total_emitAdd total_emitSub total_emitMul total_selector_iff selector_total selector_total_converse total_savedRegs total_emit_shape total_alloc_shape total_reorder_jitForm translate_jitForm translate_jitForm_numRegs total_arith_fits total_emitInstr compile_total_modulo_fits total_fits_of_bounds translate_compile translate_compile_of_localOk") + t("Hpbf.C02", "translateE_check") +
+             t("Hpbf.Chain", "x86_ret_unique jit_of_bc jit_level0_forward jit_level0_unique jit_level0_prefix jit_level0_divergent jit_level0_limited jit_level0_limited_enough") +
              t("Hpbf.C03", "layout_decompose layout_locs layout_instr_at layout_epilogue_at layout_jcc_target layout_term_target "
                "layout_epilogue layout_skip8 layout_saved_regs layout_item_size layout_items_size prog_fetch_fast prog_fetch "
                "flow_plain_block flow_arith_slots flow_brz_brnz flow_limit_interrupted flow_mov flow_mov_safe flow_arith_instr "
@@ -714,8 +726,10 @@ PROPS["C03"] = dict(
           "instruction lists (jitgen tie), X86Sem reproduces this CPU on every operand-kind combination (jitsem), and "
           "X86Prog reproduces this CPU on whole programs in unlimited and limited mode incl. the remaining budget (x86prog).",
     not_proved="hypotheses of prog_run that are not discharged for all programs: code size < 2^31, tape offsets and mov "
-               "shifts inside i32, allocation below 2^40 cells (NoOOM), the contract check BcWf.check (run per program by "
-               "the C11 check, not proved for every output of translate). The encoder (X86 -> bytes) and the ISA semantics "
+               "shifts inside i32, allocation below 2^40 cells (NoOOM). (The contract check BcWf.check IS proved for every "
+               "output of translate: translateE_check; and the selector is proved to have an arm for every instruction "
+               "translate produces with 11 registers and no fusion — translate_jitForm, selector_total, translate_compile: "
+               "compileX86 succeeds given only the operand-range condition.) The encoder (X86 -> bytes) and the ISA semantics "
                "are validated against the CPU, not proved. Known deviations of the JIT in LIMITED mode, outside C03's "
                "statement: no budget test at entry (with budget 0 a branch-free program still runs), the budget cell keeps "
                "0 or 1 after an interrupt, an I/O stop returns 0 like an interrupt",
